@@ -400,6 +400,10 @@ def check_property(prop, tier='quick'):
         cmds.extend(kres['cmds'])
         trusted.extend(kres.get('trusted', []))
     wall = time.time() - t0
+    # safety net: a relevant function that did not verify must have produced a named failure; if none could be attributed, the run is
+    # undecided (never OK)
+    if not violations and not known_hits and not undecided and discharged < obligations:
+        undecided.append('%d relevant function(s) did not verify but no failure could be attributed to an obligation' % (obligations - discharged))
     # ---- evidence
     kf_obls = len(known_hits)
     level = spec.get('level', 'proof')
